@@ -65,6 +65,10 @@ def install_monitor(run, obs, problems):
         if side is None:
             return
         sh = shadows[side]
+        if event['kind'] == 'signal' and not event.get('exported', True):
+            # emitted on an object that is no longer exported: dbus-python sends nothing, nobody on the bus sees it
+            obs['signals_on_unexported_object'] = obs.get('signals_on_unexported_object', 0) + 1
+            return
         if event['kind'] == 'signal':
             obs['signals_checked'] += 1
             args = event['args']
@@ -373,8 +377,26 @@ def udpcl_run(params, obs):
                          (dbus.ByteArray(b'\x9f' + bytes(length) + b'\xff'), dbus.Dictionary({'address': '10.0.0.9', 'port': dbus.Int32(4556)}, signature='sv')))
         sim.run(200000)
         queue = th._bus_call(sim, 'U', agent, path, type(agent).recv_bundle_get_queue, 'recv_bundle_get_queue', ())
+        # consistency of the receive view: ids announced as finished are distinct, the queue lists exactly those not yet popped,
+        # every pop returns one of the bundles that arrived, each exactly once
+        announced = [str(ev['args'][0]) for ev in sim.hist.events if ev['kind'] == 'signal' and ev['member'] == 'recv_bundle_finished'
+                     and ev.get('exported', True)]
+        if len(set(announced)) != len(announced):
+            problems.append(('udp-queue', 'udpcl: recv_bundle_finished announced ids %s (an id is used twice)' % announced, 'recv_bundle_finished'))
+        if [str(tid) for tid in queue] != announced:
+            problems.append(('udp-queue', 'udpcl: receive queue %s, announced and not popped %s' % ([str(tid) for tid in queue], announced), 'recv_bundle_get_queue'))
+        expect = list(params.get('expect_bundles', []))
+        popped = []
         for tid in list(queue):
-            th._bus_call(sim, 'U', agent, path, type(agent).recv_bundle_pop_data, 'recv_bundle_pop_data', (str(tid),))
+            popped.append(bytes(th._bus_call(sim, 'U', agent, path, type(agent).recv_bundle_pop_data, 'recv_bundle_pop_data', (str(tid),))))
+        if 'expect_bundles' in params:
+            obs['udpcl_queue_checks'] = obs.get('udpcl_queue_checks', 0) + 1
+            if sorted(popped) != sorted(expect):
+                problems.append(('udp-queue', 'udpcl: popped bundles of lengths %s, arrived complete were %s' % (
+                    sorted(len(item) for item in popped), sorted(len(item) for item in expect)), 'recv_bundle_pop_data'))
+        left = th._bus_call(sim, 'U', agent, path, type(agent).recv_bundle_get_queue, 'recv_bundle_get_queue', ())
+        if list(left):
+            problems.append(('udp-queue', 'udpcl: receive queue still lists %s after every id was popped' % list(left), 'recv_bundle_get_queue'))
         obs['runs'] += 1
         obs['signals_checked'] += len([ev for ev in sim.hist.events if ev['kind'] == 'signal'])
         obs['returns_checked'] += len([ev for ev in sim.hist.events if ev['kind'] == 'return'])
@@ -390,6 +412,29 @@ def _udp_benign(rng, cbor2):
     out = [cbor2.dumps({3: 60000, 4: 'dtn://peer/'}), b'\x9f\x01\x02\xff', cbor2.dumps({2: [7, 10, 0, b'01234']}), cbor2.dumps({2: [7, 10, 5, b'56789']})]
     rng.shuffle(out)
     return out
+
+
+def _bundle(tag, length):
+    return b'\x9f' + bytes([tag]) * length + b'\xff'
+
+
+def _udp_mixed_ids(order):
+    ''' Whole bundles and segmented transfers whose peer-chosen transfer ids coincide with local receive ids. '''
+    def make(rng, cbor2):
+        big1, big2 = _bundle(0x11, 40), _bundle(0x12, 30)
+        parts = {
+            'w1': [_bundle(0x01, 5)], 'w2': [_bundle(0x02, 6)], 'w3': [_bundle(0x03, 7)],
+            's1': [cbor2.dumps({2: [1, len(big1), 0, big1[:20]]}), cbor2.dumps({2: [1, len(big1), 20, big1[20:]]})],
+            's0': [cbor2.dumps({2: [0, len(big2), 0, big2[:10]]}), cbor2.dumps({2: [0, len(big2), 10, big2[10:]]})],
+        }
+        out = []
+        for name in order:
+            out += parts[name]
+        return out
+    return make
+
+
+_UDP_MIXED = {'w1': _bundle(0x01, 5), 'w2': _bundle(0x02, 6), 'w3': _bundle(0x03, 7), 's1': _bundle(0x11, 40), 's0': _bundle(0x12, 30)}
 
 
 def _udp_hostile(rng, cbor2):
@@ -425,6 +470,8 @@ def cases(tier, seed):
     out.append(dict(id='udp-benign', kind='udp', which='benign', seed=seed, mtu=None, sends=[10, 500]))
     out.append(dict(id='udp-benign-mtu', kind='udp', which='benign', seed=seed + 1, mtu=100, sends=[10, 99, 100, 400]))
     out.append(dict(id='udp-hostile', kind='udp', which='hostile', seed=seed + 2, mtu=None, sends=[]))
+    for oidx, order in enumerate((['w1', 's1', 'w2'], ['s0', 'w1'], ['w1', 'w2', 's1', 's0', 'w3'], ['s1', 's0', 'w1', 'w2'], ['w1', 's0', 's1'])):
+        out.append(dict(id='udp-ids-%d' % oidx, kind='udp', which='ids', order=order, seed=seed + 10 + oidx, mtu=None, sends=[]))
     return out
 
 
@@ -498,7 +545,11 @@ def run_case(case):
     else:
         params = dict(seed=case['seed'], mtu=case['mtu'], sends=case['sends'],
                       datagrams=_udp_benign if case['which'] == 'benign' else _udp_hostile)
-        note(udpcl_run(params, obs), 'udp', dict(which=case['which'], mtu=case['mtu']), 'udp|%s|%s' % (case['which'], case['mtu']))
+        if case['which'] == 'ids':
+            params['datagrams'] = _udp_mixed_ids(case['order'])
+            params['expect_bundles'] = [_UDP_MIXED[name] for name in case['order']]
+        note(udpcl_run(params, obs), 'udp', dict(which=case['which'], mtu=case['mtu'], order=case.get('order')),
+             'udp|%s|%s|%s' % (case['which'], case['mtu'], case.get('order')))
     uniq = {}
     for viol in violations:
         uniq.setdefault((viol['key'], viol['what'][:90]), viol)
